@@ -1150,6 +1150,7 @@ tp_shutdown_wait(tp_p tp) {
 	size_t err_cnt = 0;
 	/* 1 sec = 1000000000 nanoseconds. */
 	struct timespec rqts = { .tv_sec = 0, .tv_nsec = 100000000 };
+	static const pthread_t pt_id_none; /* Zero: no thread to join. */
 
 	if (NULL == tp)
 		return (EINVAL);
@@ -1159,9 +1160,12 @@ tp_shutdown_wait(tp_p tp) {
 		return (EDEADLK);
 
 	for (size_t i = 0; i < tp->s.threads_max; i ++) {
-		if (TP_THREAD_STATE_STOP == tp->threads[i].state)
+		/* Skip never started / attached / joined, but join threads
+		 * that already done (state = STOP): release thread resources. */
+		if (0 == memcmp(&tp->threads[i].pt_id, &pt_id_none, sizeof(pthread_t)))
 			continue;
 		error = pthread_join(tp->threads[i].pt_id, NULL);
+		memset(&tp->threads[i].pt_id, 0x00, sizeof(pthread_t)); /* Join once. */
 		switch (error) {
 		case 0: /* No error. */
 			break;
@@ -1246,6 +1250,7 @@ tp_threads_create(tp_p tp, const int skip_first) {
 		error = pthread_create_eagain(&tpt->pt_id, NULL,
 		    tp_thread_proc, tpt);
 		if (0 != error) { /* Report, but try to start other threads. */
+			memset(&tpt->pt_id, 0x00, sizeof(pthread_t));
 			tpt->state = TP_THREAD_STATE_STOP;
 			ret_error = error;
 		}
@@ -1270,6 +1275,7 @@ tp_thread_attach_first(tp_p tp) {
 	tpt->pt_id = pthread_self();
 
 	tp_thread_proc(tpt);
+	memset(&tpt->pt_id, 0x00, sizeof(pthread_t)); /* Caller thread: nothing to join. */
 
 	return (0);
 }
@@ -1342,7 +1348,7 @@ tp_thread_proc(void *data) {
 	syslog(LOG_INFO, "%s thread exited...", thr_name);
 	pthread_setspecific(tp_tls_key_tpt, NULL);
 	pthread_self_name_set(NULL);
-	memset(&tpt->pt_id, 0x00, sizeof(pthread_t));
+	/* Keep pt_id: tp_shutdown_wait() must join this thread. */
 	tpt->state = TP_THREAD_STATE_STOP; /* Reset state on exit. */
 	tpt->tp->threads_cnt --;
 
